@@ -126,7 +126,7 @@ def run_nego(ctx, mode, ekm=0, subset=None, extra_scn=None, shards=8, extra_ids=
                 "force_suite": 0, "force_group": 0, "force_alpn": "", "hrr_cookie": 0, "legacy_only": False, "canary": 0,
                 "sid_echo": "", "compression": 0, "psk_index": 0, "hrr_group": 0,
                 "alps_cp": 0, "alps12": False, "client_alps": "", "alps_settings": [], "remove_sni": False, "client_auth": 0, "resume": False,
-                "no_reneg": False, "ks_reverse": False, "ks_list": [], "kx_share": "", "kx_secret": "", "kx_kem": "", "edit": "", "groups_first": 0, "srv_groups": [], "fp_copy": False, "prior_id": "", "extra_exts": []})
+                "no_reneg": False, "ks_reverse": False, "ks_list": [], "kx_share": "", "kx_secret": "", "kx_kem": "", "edit": "", "groups_first": 0, "srv_groups": [], "sigalgs_cert": False, "sv_list": [], "rand_fe0d": False, "resume_ver": 0, "fp_copy": False, "prior_id": "", "extra_exts": []})
     scns = scns + [can]
     for i, s in enumerate(scns):
         s["sc"] = i
@@ -163,5 +163,5 @@ def sig_detail(d):
 def scn_brief(s):
     keep = ("id", "ver", "suite", "group", "cert", "alpn", "mode", "force_suite", "force_group", "force_alpn", "hrr_cookie",
             "legacy_only", "canary", "sid_echo", "compression", "psk_index", "hrr_group", "ks_reverse", "ks_list",
-            "kx_share", "kx_secret", "kx_kem", "edit", "groups_first", "srv_groups")
+            "kx_share", "kx_secret", "kx_kem", "edit", "groups_first", "srv_groups", "sigalgs_cert", "sv_list", "rand_fe0d")
     return {k: s[k] for k in keep if k in s and s[k] not in (0, "", False, [], None)}
